@@ -67,7 +67,7 @@ def custom_run(ctx, res, cw):
         res.cov["evaluations"] += 1
         for f in judge_run(cw.meta[p], blocks): (viol if f.kind == "violation" else mism).append((p, cw.meta[p], f))
         lines = [l for l in open(p).read().splitlines() if l != "edges on"]
-        for (kind, k, mode) in F.fault_points(ctx, tot, per_kind_quick=2):
+        for (kind, k, mode) in F.fault_points(ctx, tot, per_kind_quick=2, exhaustive=cw.meta[p].get("exhaustive", False)):
             fl = f"fault {kind} {k}" + (f" {mode}" if mode else "")
             cw.add([fl] + lines, dict(cw.meta[p], fault=fl))
     fpaths = [p for p in cw.paths if p not in set(bpaths) and p not in set(pre)]
